@@ -98,6 +98,7 @@ fn run_node(n: &Node, cx: &Ctx) {
     match (n.a.as_str(), n.c.as_str()) {
         ("Aq", "Ta") => arms!(cx, n, k, Aq, aq, aq, Ta),
         ("Aq", "Tb") => arms!(cx, n, k, Aq, aq, aq, Tb),
+        ("Aq", "Tz") => arms!(cx, n, k, Aq, aq, aq, Tz),
         ("Ar", "Tb") => arms!(cx, n, k, Ar, ar, ar, Tb),
         ("Ar", "Th") => arms!(cx, n, k, Ar, ar, ar, Th),
         _ => panic!("harness: bad nest cell"),
@@ -128,6 +129,7 @@ pub fn run(input: &str, out: &mut dyn Write, ar_empty: bool) -> (u64, u64) {
         if r.is_err() { panics += 1; }
         // at rest every cell must be free again, and the world usable
         let free = [
+            guard(|| { let _g = w.aq.borrow_slice_mut::<Tz>(); }).is_ok(),
             guard(|| { let _g = w.aq.borrow_slice_mut::<Ta>(); }).is_ok(),
             guard(|| { let _g = w.aq.borrow_slice_mut::<Tb>(); }).is_ok(),
             guard(|| { let _g = w.ar.borrow_slice_mut::<Tb>(); }).is_ok(),
